@@ -36,7 +36,10 @@ def build(rnd):
             emits = rnd.choice([True, False, 'invalidates'])
             props[pn] = (sig, r, w, emits)
         decl[n] = props
-    ifaces = {n: interface.DBusInterface(n, *[interface.Property(pn, sig, readable=r, writeable=w, emitsOnChange=e) for pn, (sig, r, w, e) in ps.items()], noRegister=True)
+    # an interface of the object's own may declare a signal that happens to be called PropertiesChanged: the change notification is still
+    # the one of org.freedesktop.DBus.Properties
+    own_signal = [interface.Signal('PropertiesChanged', 'sa{sv}as')] if rnd.random() < 0.3 else []
+    ifaces = {n: interface.DBusInterface(n, *([interface.Property(pn, sig, readable=r, writeable=w, emitsOnChange=e) for pn, (sig, r, w, e) in ps.items()] + (own_signal if n == names[0] else [])), noRegister=True)
               for n, ps in decl.items()}
     base_if, derived_if = names[:1], names[1:]
     base_ns = {'dbusInterfaces': [ifaces[n] for n in base_if]}
